@@ -207,6 +207,13 @@ def gen_program(rng, focus="mix", wild=False, max_bodies=4, max_ops=7):
                     ops.append("ad%d.%d" % (s, rng.choice([0, 1, 1, 2])))
                 elif r < 0.8:
                     ops.append("si%d" % s)
+                elif r < 0.84 and s in held:
+                    if held.count(s) >= 2 and rng.random() < 0.5:
+                        ops.append("mg%d" % s)
+                        held.remove(s)
+                    else:
+                        ops.append("sp%d.%d" % (s, rng.choice([0, 1, 1, 2, 3])))
+                        held.append(s)
                 elif r < 0.88 and s in held:
                     ops.append("fg%d" % s)
                     held.remove(s)
@@ -231,6 +238,8 @@ def gen_program(rng, focus="mix", wild=False, max_bodies=4, max_ops=7):
                     elif r < 0.6:
                         ops.append("wr%d" % o)
                         held.append(o)
+                        if rng.random() < 0.35:
+                            ops.append("dg%d" % o)
                     elif r < 0.8:
                         ops.append("tR%d" % o)
                     else:
@@ -275,7 +284,9 @@ def gen_program(rng, focus="mix", wild=False, max_bodies=4, max_ops=7):
                 if not choices:
                     continue
                 k2, o = rng.choice(choices)
-                if k2 == "os":
+                if k2 == "os" and rng.random() < 0.2:
+                    ops.append("oi%d" % o)
+                elif k2 == "os":
                     ops.append("os%d.%d" % (o, nextval[0]))
                     nextval[0] += 1
                     dead.add(("otx", o))
@@ -342,8 +353,16 @@ def gen_program(rng, focus="mix", wild=False, max_bodies=4, max_ops=7):
                     h = ahandles.pop(0)
                     ops.append("aw%d" % h)
             elif c == "wild":
-                w = rng.choice(["rl", "jt", "aw", "en", "an", "dn", "fg"])
-                if w == "rl" or w == "fg":
+                w = rng.choice(["rl", "jt", "aw", "en", "an", "dn", "fg", "mg", "dg"])
+                if w == "dg":
+                    cand = [i for i, sp in enumerate(t.specs) if sp[0] == "w"]
+                    if cand:
+                        ops.append("dg%d" % rng.choice(cand))
+                elif w == "mg":
+                    cand = [i for i, sp in enumerate(t.specs) if sp[0] == "s"]
+                    if cand:
+                        ops.append("mg%d" % rng.choice(cand))
+                elif w == "rl" or w == "fg":
                     o = rng.randrange(len(t.specs))
                     if t.specs[o][0] in "smw":
                         ops.append("%s%d" % (w, o))
@@ -427,7 +446,7 @@ def static_ok(case):
                 key = ("tx", args[0], args[1])
             elif pre in ("rc", "br", "tr", "cr", "dr"):
                 key = ("rx", args[0])
-            elif pre in ("os", "ox"):
+            elif pre in ("os", "ox", "oi"):
                 key = ("otx", args[0])
             elif pre in ("or", "ot", "oc", "oy"):
                 key = ("orx", args[0])
@@ -445,13 +464,13 @@ def static_ok(case):
             # objects of the right kind
             objarg = {"sd": "c", "bs": "c", "ts": "c", "dt": "c", "rc": "c", "br": "c", "tr": "c", "cr": "c", "dr": "c", "ci": "c",
                       "ac": "s", "ta": "s", "ad": "s", "sc": "s", "si": "s", "lk": "m", "tl": "m", "rd": "w", "wr": "w", "tR": "w", "tW": "w",
-                      "nf": "n", "no": "n", "na": "n", "ws": "h", "wm": "h", "wp": "h", "wx": "h", "wl": "h", "wi": "h", "wb": "h", "wu": "h",
+                      "nf": "n", "no": "n", "na": "n", "dg": "w", "oi": "o", "ws": "h", "wm": "h", "wp": "h", "wx": "h", "wl": "h", "wi": "h", "wb": "h", "wu": "h",
                       "wh": "h", "wc": "h", "wf": "h", "wy": "h", "wn": "h", "os": "o", "or": "o", "ot": "o", "oc": "o", "ox": "o", "oy": "o"}
             if pre in objarg:
                 i = int(args[0])
                 if i >= len(specs) or specs[i][0] != objarg[pre]:
                     return False
-            if pre in ("rl", "fg"):
+            if pre in ("rl", "fg", "mg", "sp"):
                 i = int(args[0])
                 if i >= len(specs) or specs[i][0] not in "smw":
                     return False
